@@ -5,7 +5,7 @@ in try blocks, under aliases and repeatedly."""
 
 def import_stmt(r, target, alias_ok=True):
     if alias_ok and r.chance(40):
-        alias = "al_" + target.replace("/", "_")
+        alias = "al_" + "".join(ch if ch.isalnum() else "_" for ch in target)
         return "import \"%s\" as %s;" % (target, alias), alias
     return "import \"%s\";" % target, target.split("/")[-1]
 
@@ -14,7 +14,9 @@ def module_program(rng):
     r = rng
     n = r.range(2, 6)
     names = ["m%d" % i for i in range(n)]
-    paths = {nm: (nm if r.chance(70) else "lib/" + nm) for nm in names}
+    # the path text is the module's identity for the library: plain names, directories, and spellings a path
+    # normaliser might be tempted to merge ("./m0" and "m0" are different modules unless the host says otherwise)
+    paths = {nm: r.weighted([(nm, 60), ("lib/" + nm, 20), ("./" + nm, 12), ("./lib/../" + nm, 8)]) for nm in names}
     kinds = {}
     for nm in names:
         kinds[nm] = r.weighted([("ok", 12), ("missing", 2), ("broken", 2), ("throws", 1)])
